@@ -257,3 +257,24 @@ pub fn into_method(target: &str) -> &'static str {
         _ => "m_into_wrap",
     }
 }
+
+/// niche-carrying and zero-sized payload types (C04)
+pub fn niche_types() -> Vec<FTy> {
+    vec![
+        ft("Inner", &["Inner::A", "Inner::B", "Inner::C"], ALL | CONSTVAL),
+        ft("Option<Inner>", &["None", "Some(Inner::A)", "Some(Inner::C)"], ALL | CONSTVAL),
+        ft(
+            "Option<::core::num::NonZeroU8>",
+            &["None", "::core::num::NonZeroU8::new(1)", "::core::num::NonZeroU8::new(255)"],
+            ALL | CONSTVAL,
+        ),
+        ft("&'static u8", &["&1u8", "&2u8", "&200u8"], (ALL & !DEFAULT) | CONSTVAL),
+        ft("Option<&'static u8>", &["None", "Some(&1u8)", "Some(&2u8)"], ALL | CONSTVAL),
+        ft("Option<bool>", &["None", "Some(false)", "Some(true)"], ALL | CONSTVAL),
+        ft("Option<char>", &["None", "Some('a')", "Some('\\u{10FFFF}')"], ALL | CONSTVAL),
+        ft("u128", &["1u128", "2u128", "340282366920938463463374607431768211455u128"], ALL | CONSTVAL),
+        ft("[u64; 3]", &["[1u64, 2, 3]", "[0u64, 0, 0]", "[18446744073709551615u64, 0, 1]"], ALL | CONSTVAL),
+        ft("PhantomData<u64>", &["PhantomData"], ALL | CONSTVAL),
+        ft("[u8; 0]", &["[]"], ALL | CONSTVAL),
+    ]
+}
